@@ -1,5 +1,8 @@
 #!/usr/bin/env python3
 """Assemble /verif/seeded/<id>/ from the confirmed blind mutants.
+   NOTE: kept as the record of how seeded/ was built; the scratch roots it reads (/tmp/mw*, with the confirmation records) were
+   removed at the end of the build, so it does nothing now - re-run the stored changes with tools/run_seeded.py or
+   tools/triage_json.py <out.json> <id>=/verif/seeded/<id>/patch.diff ... instead.
    round 1: /tmp/mw/<P>/mutants/<X>.diff  -> seeded/<P>-<X>/      rounds 2, 3: /tmp/mw2, /tmp/mw3 -> seeded/r2-<P>-<X>/, seeded/r3-<P>-<X>/
    Each directory: patch.diff, demo.py, NOTES.md (author's notes), meta.json (property broken, what the change needs in order to
    manifest, what was run to confirm it, which checks report it).  Only mutants whose confirmation record says confirmed are kept.
